@@ -2,7 +2,10 @@ SPECIFICATION Spec
 CONSTANTS
   MaxB = 4
   NPs = {3}
+  MaxPost = 1
+  Reserve = TRUE
   Titles <- TitleClasses
   Emit = TRUE
 INVARIANTS RefinesForest RefinesAdjust RefinesFresh RefinesLinks RefinesCarries RefinesToc Verdict EmitInv
+PROPERTIES Reserved
 CHECK_DEADLOCK FALSE
